@@ -335,7 +335,7 @@ def run(tier):
         # ---------------------------------------------------------------- thorough: line coverage of futex.c/map.c/list.c
         if not quick and exe:
             try:
-                chk.coverage["gcov"] = gcov_lines(repo, d, lines[:400])
+                chk.coverage["gcov"] = gcov_lines(repo, d, lines[:400] + lines[-10:])
             except Exception as e:
                 chk.notes.append("gcov failed: " + str(e)[-300:])
     if tier == "thorough" and pr["build_ok"]:
